@@ -390,12 +390,6 @@ func init() {
 	})
 
 	// ---- sync: sequential models -----------------------------------------------------------
-	noop := func(m *Machine, fn *ssa.Function, args []Value) Value { return nil }
-	for _, n := range []string{"(*sync.Mutex).Lock", "(*sync.Mutex).Unlock", "(*sync.RWMutex).Lock", "(*sync.RWMutex).Unlock",
-		"(*sync.RWMutex).RLock", "(*sync.RWMutex).RUnlock", "(*sync.WaitGroup).Add", "(*sync.WaitGroup).Done", "(*sync.WaitGroup).Wait"} {
-		reg(n, noop)
-	}
-	reg("(*sync.Mutex).TryLock", func(m *Machine, fn *ssa.Function, args []Value) Value { return m.C.True })
 	reg("(*sync.Once).Do", func(m *Machine, fn *ssa.Function, args []Value) Value {
 		o := (*args[0].(*Value)).(Struct)
 		// field 0: done atomic.Uint32 (struct{_ noCopy; v uint32}) or uint32 depending on version
@@ -403,15 +397,25 @@ func init() {
 		if st, ok := (*doneCell).(Struct); ok {
 			doneCell = &st[len(st)-1]
 		}
+		m.yield()
+		if m.concurrent() {
+			// a second caller waits until the first one's function has returned
+			m.block(func() bool { return !m.sch.onces[doneCell] }, "sync.Once.Do")
+		}
 		if t := (*doneCell).(*Term); t.IsConst() && t.Val != 0 {
 			return nil
 		}
 		m.set(doneCell, m.C.BV((*doneCell).(*Term).W, 1))
-		m.callValue(args[1], nil, nil)
+		m.sch.onces[doneCell] = true
+		func() {
+			defer func() { m.sch.onces[doneCell] = false }()
+			m.callValue(args[1], nil, nil)
+		}()
 		return nil
 	})
 	reg("(*sync.Pool).Get", func(m *Machine, fn *ssa.Function, args []Value) Value {
 		p := args[0].(*Value)
+		m.yield()
 		if objs := m.pools[p]; len(objs) > 0 {
 			v := objs[len(objs)-1]
 			m.pools[p] = objs[:len(objs)-1]
@@ -426,6 +430,7 @@ func init() {
 	})
 	reg("(*sync.Pool).Put", func(m *Machine, fn *ssa.Function, args []Value) Value {
 		p := args[0].(*Value)
+		m.yield()
 		if i, ok := args[1].(Iface); ok && i.T == nil {
 			return nil
 		}
@@ -435,17 +440,23 @@ func init() {
 
 	// sync/atomic primitives over cells
 	for _, ty := range []string{"Int32", "Int64", "Uint32", "Uint64", "Uintptr", "Pointer"} {
-		reg("sync/atomic.Load"+ty, func(m *Machine, fn *ssa.Function, args []Value) Value { return m.load(args[0]) })
+		reg("sync/atomic.Load"+ty, func(m *Machine, fn *ssa.Function, args []Value) Value {
+			m.yield()
+			return m.load(args[0])
+		})
 		reg("sync/atomic.Store"+ty, func(m *Machine, fn *ssa.Function, args []Value) Value {
+			m.yield()
 			m.store(args[0], args[1])
 			return nil
 		})
 		reg("sync/atomic.Swap"+ty, func(m *Machine, fn *ssa.Function, args []Value) Value {
+			m.yield()
 			old := m.load(args[0])
 			m.store(args[0], args[1])
 			return old
 		})
 		reg("sync/atomic.CompareAndSwap"+ty, func(m *Machine, fn *ssa.Function, args []Value) Value {
+			m.yield()
 			old := m.load(args[0])
 			if m.Decide(m.eqVal(old, args[1])) {
 				m.store(args[0], args[2])
@@ -455,6 +466,7 @@ func init() {
 		})
 		if ty != "Pointer" {
 			reg("sync/atomic.Add"+ty, func(m *Machine, fn *ssa.Function, args []Value) Value {
+				m.yield()
 				nv := m.C.Bin(OpAdd, m.asTerm(m.load(args[0])), m.asTerm(args[1]))
 				m.store(args[0], nv)
 				return nv
@@ -463,6 +475,7 @@ func init() {
 	}
 	// atomic.Value: field v any
 	reg("(*sync/atomic.Value).Load", func(m *Machine, fn *ssa.Function, args []Value) Value {
+		m.yield()
 		st := (*args[0].(*Value)).(Struct)
 		return st[0]
 	})
@@ -471,6 +484,7 @@ func init() {
 		if i, ok := args[1].(Iface); ok && i.T == nil {
 			panic(targetPanic{msg: "sync/atomic: store of nil value into Value", stack: m.stackString()})
 		}
+		m.yield()
 		m.set(&st[0], args[1])
 		return nil
 	})
